@@ -24,7 +24,7 @@ def configs(tier):
         add(spec('global', 'clenshaw-curtis', 2, 1, 1), 'A^!,Udv'); add(spec('sequence', 'rleja', 2, 1, 1), 'A^!,Uv'); add(spec('fourier', 'fourier', 2, 1, 1), 'A^!,Udv'); add(spec('localp', 'localp', 2, 1, 1, order=1), 'Sc^!,Sfv')
         # other selection types: the limits test sits in three different selection routines (lower set / general set / full tensor)
         add(spec('global', 'clenshaw-curtis', 2, 1, 3, 'ipcurved', aniso=2), 'Ud'); add(spec('global', 'leja', 2, 1, 2, 'qptotal', aniso=1), 'U'); add(spec('sequence', 'rleja', 2, 1, 2, 'iphyperbolic'), 'U'); add(spec('global', 'clenshaw-curtis', 2, 1, 2, 'tensor'), 'Ud')
-        add(spec('wavelet', 'wavelet', 2, 1, 1, order=1), 'Sc'); add(spec('fourier', 'fourier', 2, 1, 1), 'A', 0); add(spec('fourier', 'fourier', 2, 1, 1), 'K', 1)
+        add(spec('wavelet', 'wavelet', 2, 1, 1, order=1), 'Sc'); add(spec('wavelet', 'wavelet', 2, 1, 0, order=3), 'Sc,Sc'); add(spec('wavelet', 'wavelet', 1, 1, 1, order=3), 'Sc,K'); add(spec('fourier', 'fourier', 2, 1, 1), 'A', 0); add(spec('fourier', 'fourier', 2, 1, 1), 'K', 1)
     else:
         for rule in ('clenshaw-curtis', 'fejer2', 'rleja', 'leja', 'rleja-odd', 'min-delta', 'gauss-patterson', 'rleja-double2'):
             for ops, p in (('A,A', 0), ('U,A', 1), ('A,X,A', 0), ('K', 0), ('K', 1), ('A,U,K', 0)): add(spec('global', rule, 2, 1, 1), ops, p, max_paths=80)
